@@ -16,13 +16,13 @@ import (
 const tokenLSS = token.LSS
 
 type SpecEnv struct {
-	fx     *fnExec
-	cur    *State
-	old    *State
-	names  map[string]SV
-	bound  map[string]SV
-	callee bool // evaluating a callee's contract: no access to the caller's cells
-	depth  int
+	fx      *fnExec
+	cur     *State
+	old     *State
+	names   map[string]SV
+	bound   map[string]SV
+	callee  bool // evaluating a callee's contract: no access to the caller's cells
+	depth   int
 	loopPre *State
 }
 
@@ -235,8 +235,10 @@ func (fx *fnExec) evalSpec(e Expr, env *SpecEnv) SV {
 		c := fx.evalBool(x.C, env)
 		return fx.iteSV(c, fx.evalSpec(x.A, env), fx.evalSpec(x.B, env))
 	case ESel:
-		if id, ok := x.X.(EIdent); ok && id.Name == "io" && (x.Name == "EOF" || x.Name == "ErrUnexpectedEOF") {
-			return Sc{fx.ioSentinel(x.Name), nil}
+		if id, ok := x.X.(EIdent); ok {
+			if g := fx.v.sentinelByName(id.Name, x.Name); g != nil {
+				return Sc{fx.sentinelTerm(g), g.Type().(*types.Pointer).Elem()}
+			}
 		}
 		v := fx.evalSpec(x.X, env)
 		return fx.selField(v, x.Name, env)
